@@ -36,7 +36,7 @@ class Cluster:
     def peers(self, upto=None):
         return ",".join("http://127.0.0.1:%d" % nd.raft_port for nd in self.nodes[:upto or self.n0])
 
-    def start_node(self, nd, crash_at=None, join=False, peers=None):
+    def start_node(self, nd, crash_at=None, join=False, peers=None, crash_delay_ms=0, crash_arm=None):
         conf = {"IsCluster": True, "PeerAddrs": peers or self.peers(), "RaftAddr": "", "PeerIDs": ",".join(str(i + 1) for i in range(self.n0)),
                 "NodeID": nd.id, "KVPort": nd.kv_port, "JoinCluster": join}
         json.dump(conf, open(os.path.join(nd.dir, "cluster.json"), "w"))
@@ -50,6 +50,10 @@ class Cluster:
             env["VERIF_TRACE"] = os.path.join(nd.dir, "events.ndjson")
         if crash_at:
             env["VERIF_CRASH_AT"] = crash_at
+            if crash_delay_ms:
+                env["VERIF_CRASH_DELAY_MS"] = str(crash_delay_ms)
+            if crash_arm:
+                env["VERIF_CRASH_ARM"] = crash_arm
         nd.starts += 1
         log = open(os.path.join(nd.dir, "stdout-%d.log" % nd.starts), "wb")
         nd.p = subprocess.Popen([self.bin, "--config", "redis.conf", "--IsCluster", "--ClusterConfigPath", "cluster.json"], cwd=nd.dir,
